@@ -545,6 +545,8 @@ def cases(quick):
     for kind in ("bytes", "stream3"):
         for n in (2049, 65537):
             add(f"resp/{kind}-{n}-sockread", {"read_bufsize": 1024, "sock_read": 5}, {"kind": kind, "size": n})
+    for st, kind in ((204, "empty"), (304, "empty"), (200, "empty"), (200, "bytes")):
+        add(f"resp/{st}-{kind}-sockread", {"sock_read": 5}, {"status": st, "kind": kind, "size": 0 if kind == "bytes" else 13})
     add("req/bytes-3000-sockread", {"method": "POST", "body": "bytes", "size": 3000, "sock_read": 5}, canon_resp)
     return out
 
